@@ -195,7 +195,7 @@ func gen(r *prng.R, f proto.Flags, emit func(proto.Case)) {
 		glueCases = append(glueCases, glueCase(r.Fork(), fmt.Sprintf("gg%d", k)))
 	}
 	if f.Tier == "thorough" {
-		glueEnum(5, func(c proto.Case) { glueCases = append(glueCases, c) })
+		glueEnum(4, func(c proto.Case) { glueCases = append(glueCases, c) })
 	} else {
 		glueEnum(3, func(c proto.Case) { glueCases = append(glueCases, c) })
 	}
